@@ -211,7 +211,15 @@ def candidate_cases(ctx, f, stop_stmt, L, only_paths=None):
                 continue
             fl = B.flatten_filter(ret, env)
             if fl is None:
-                raise AnalysisError(f"{f.site()}: `{U(L)}` is `{U(B.resolve(ret, env))[:80]}`, not a selection of the plate list")
+                rv = B.resolve(ret, env)
+                # recognised wrong: one plate looked up per listed id (`[screen.get_plate(i) for i in batch_plate_ids]`): an id listed twice
+                # gives the plate twice, an unknown id an empty plate - a selection of the plate list has neither
+                if isinstance(rv, (ast.ListComp, ast.GeneratorExp)) and len(rv.generators) == 1 and U(rv.generators[0].iter) == BATCH \
+                        and isinstance(rv.elt, ast.Call) and attr_tail(rv.elt) == "get_plate":
+                    ctx.bad("R1" if ctx.prop == "C06" else "R4", f"{f.site()}::{U(L)}-is-a-selection-of-the-plate-list",
+                            f"`{U(L)}` is `{U(rv)[:80]}`: one plate per *listed* id - a plate id given twice is counted as two plates of its sample "
+                            f"(the sample then looks complete / is scored twice), an id that is not in the screen yields an empty plate")
+                raise AnalysisError(f"{f.site()}: `{U(L)}` is `{U(rv)[:80]}`, not a selection of the plate list")
             root, cs, keys = fl
             filt = set()
             for c in cs:
